@@ -22,9 +22,9 @@ COMPONENTS = {"real": ["out_netcdf.Output (write, write_particle_variables, crea
               "stub": ["synthetic ocean files", "scripted IBM"]}
 ASSUMPTIONS = ["lon/lat output values are judged by C16, not here", "the history global attribute is ignored",
                "f4 variables are compared after rounding the state value to float32"]
-TIERS = {"quick": dict(runs=1200, budget_s=50, shrink=150),
+TIERS = {"quick": dict(runs=900, budget_s=50, shrink=150),
          "thorough": dict(runs=100000, budget_s=900, shrink=250)}
-REQUIRED_PROBES = ["empty_record", "highest_pid_dead_at_close", "dense", "time_particle_variable", "death_between_records",
+REQUIRED_PROBES = ["warm_start_records", "empty_record", "highest_pid_dead_at_close", "dense", "time_particle_variable", "death_between_records",
                    "out_of_grid_death", "multi_file", "empty_state_at_close"]
 
 PROFILE = gen.profile(
@@ -55,6 +55,10 @@ def generate(seed: int, tier: str, idx: int) -> dict:
     if s.chance(0.15) and sc.get("ibm"):
         # everybody dies
         sc["ibm"].setdefault("kills", {})[str(s.randint(0, max(0, n - 1)))] = [r["tag"] for r in rows]
+    if sc["output"].get("numrec") and sc["output"].get("layout", "sparse") == "sparse" and s.chance(0.6):
+        f4 = any(t == "f4" for t in sc["output"]["ivars"].values())
+        gen.make_restartable(sc, f8=not f4)
+        sc["plan"] = {"warm": True}
     return sc
 
 
@@ -83,11 +87,11 @@ def same(a, b) -> bool:
     return bool(np.array_equal(a, b))
 
 
-def pvar_expected(sc, snap, name: str, npid: int):
+def pvar_expected(sc, snap, name: str, npid: int, ref_t):
     v = snap["vars"][name][:npid]
     if v.dtype.kind == "M" or v.dtype == object:
         v = np.array([np.datetime64(x, "s") for x in v], dtype="M8[s]")
-        return (v - truth.t_ref(sc)) / np.timedelta64(1, "s")
+        return (v - ref_t) / np.timedelta64(1, "s")
     return v
 
 
@@ -101,6 +105,29 @@ def execute(sc) -> Result:
         layout = out.get("layout", "sparse")
         res.history_key = "|".join(map(str, (layout, out.get("numrec", 0), sorted(out["ivars"].items()),
                                              sorted(out.get("pvars", {}).items()), out["period"]))) + "|" + abstract_history(run)
+        check_run(res, sc, run, d, "out", truth.t_ref(sc))
+        # ---- the same for a run that is warm-started from the first completed file (records are then written
+        #      at steps that do not start at zero; the time coordinate must still be the model time)
+        plan = sc.get("plan", {})
+        files = readback.list_output_files(d)
+        if plan.get("warm") and run.error is None and layout == "sparse" and out.get("numrec") and len(files) >= 2:
+            first = readback.OutFile(files[0])
+            if first.nrec == out["numrec"]:
+                run2 = driver.run_scenario(sc, d, write=False, warm_file=str(files[0]), out_name="warm_001.nc",
+                                           cfg_name="warm")
+                account_run(res, run2, sc)
+                ref_t = truth.t_ref(sc) if sc["time"].get("reference") else min(first.times[-1], truth.t_stop(sc))
+                check_run(res, sc, run2, d, "warm", ref_t, warm=True)
+                if run2.error is None:
+                    res.probes["warm_start_records"] += 1
+    finally:
+        world.rm_dir(d)
+    return res
+
+
+def check_run(res: Result, sc, run, d, stem: str, ref_t, warm: bool = False) -> None:
+        out = sc["output"]
+        layout = out.get("layout", "sparse")
         v, foreign = crash_violation(ID, run, ANCHORS)
         if v is not None:
             res.add(v)
@@ -108,13 +135,12 @@ def execute(sc) -> Result:
             res.aborted_foreign += 1
         rec = run.rec
         writes = rec.snaps_at("output.write")
-        R = readback.Records(readback.list_output_files(d))
+        R = readback.Records(readback.list_output_files(d, stem))
         for e in R.errors:
             if run.error is None:
                 res.add(Violation("C06.unreadable", None, "file", e, "readable"))
         if run.error is None and len(R.recs) != len(writes):
             res.add(Violation("C06.members", None, "number of records", len(R.recs), f"{len(writes)} write calls"))
-        ref_t = truth.t_ref(sc)
         ivars = {k: t for k, t in out["ivars"].items() if k not in ("lon", "lat")}
         if layout == "dense":
             ivars.pop("pid", None)
@@ -208,12 +234,12 @@ def execute(sc) -> Result:
                     res.add(Violation("C06.particle_var", None, f"{f.name} {name}", "missing", "present"))
                     continue
                 got = np.asarray(f.vars[name])
-                want = stored(pvar_expected(sc, snap, name, npid), nct)
+                want = stored(pvar_expected(sc, snap, name, npid, ref_t), nct)
                 if len(got) < npid or not same(got[:npid], want):
                     res.add(Violation("C06.particle_var", snap["step"],
                                       f"{f.name} {name}[0:{npid}] (particles released up to the file's last record)",
                                       got[:npid + 2], want))
-        res.nontrivial = len(writes) >= 2 and (deaths > 0 or empty > 0 or len({r["step"] for r in sc["release"]["rows"]}) > 1)
+        res.nontrivial = res.nontrivial or len(writes) >= 2 and (deaths > 0 or empty > 0 or len({r["step"] for r in sc["release"]["rows"]}) > 1)
         if empty:
             res.probes["empty_record"] += 1
         if layout == "dense":
@@ -227,6 +253,3 @@ def execute(sc) -> Result:
         tp, tq = rec.snap_by_step("tracker.pre"), rec.snap_by_step("tracker.post")
         if any(st in tq and tp[st]["vars"]["alive"].sum() > tq[st]["vars"]["alive"].sum() for st in tp):
             res.probes["out_of_grid_death"] += 1
-    finally:
-        world.rm_dir(d)
-    return res
